@@ -157,7 +157,7 @@ def judge(ctx: core.Ctx, case: dict[str, Any]) -> None:
             root = core.root_cause(o.exc)
             ctx.violation(
                 f"{name}-crashes-{st}:{o.err_class}@{core.liquid_frame(root)}",
-                f"{name} mode let {o.err_class} ({str(o.exc)[:80]}) escape at {st} where strict mode gives {o_s.brief()!r:.120}: {case['source']!r:.200}",
+                f"{name} mode let {o.err_class} ({drv.safe_str(o.exc)[:80]}) escape at {st} where strict mode gives {o_s.brief()!r:.120}: {case['source']!r:.200}",
                 {"tb": core.short_tb(o.exc)},
             )
             return
@@ -187,10 +187,10 @@ def judge(ctx: core.Ctx, case: dict[str, Any]) -> None:
         return (not o.ok) and o.is_liquid_error and o.err_class == o_w.err_class
 
     if not o_l.ok:
-        v(f"lax-raises-{st_l}:{o_l.err_class}", f"lax mode raised {o_l.err_class} at {st_l}: {str(o_l.exc)[:100]}", lax_raises)
+        v(f"lax-raises-{st_l}:{o_l.err_class}", f"lax mode raised {o_l.err_class} at {st_l}: {drv.safe_str(o_l.exc)[:100]}", lax_raises)
         return
     if not o_w.ok:
-        v(f"warn-raises-{st_w}:{o_w.err_class}", f"warn mode raised {o_w.err_class} at {st_w}: {str(o_w.exc)[:100]}", warn_raises)
+        v(f"warn-raises-{st_w}:{o_w.err_class}", f"warn mode raised {o_w.err_class} at {st_w}: {drv.safe_str(o_w.exc)[:100]}", warn_raises)
         return
     if w_l or w_s:
         v("warnings-outside-warn-mode", f"LiquidWarning emitted in strict ({w_s}) or lax ({w_l}) mode", None)
@@ -239,7 +239,7 @@ def judge(ctx: core.Ctx, case: dict[str, Any]) -> None:
             ctx.evaluations += 1
             ctx.violation(
                 f"suppressed-without-warning:{o_s.err_class}:{core.liquid_frame(o_s.exc)}",
-                f"strict raises {o_s.err_class} ({str(o_s.exc)[:80]}) but warn mode suppresses it without a warning [shrunk source: {small!r}]",
+                f"strict raises {o_s.err_class} ({drv.safe_str(o_s.exc)[:80]}) but warn mode suppresses it without a warning [shrunk source: {small!r}]",
                 {"shrunk": small},
             )
             return
